@@ -38,6 +38,19 @@ def cases(tier, seed):
             for si in (0, 1, 2):
                 base = {"ti": ti, "x0i": x0i, "si": si, "tier": tier}
                 out.append(dict(base, which="none"))
+                if si == 0:
+                    # user-chosen checker parameters: every entry again, one magnitude
+                    for pv in (1, 2):
+                        b2 = dict(base, pv=pv)
+                        out.append(dict(b2, which="none"))
+                        for j in range(n):
+                            out.append(dict(b2, which="grad", i=0, j=j, mag=5.0))
+                        for i in range(m):
+                            for j in range(n):
+                                out.append(dict(b2, which="jac", i=i, j=j, mag=5.0))
+                        for i in range(n):
+                            for j in range(n):
+                                out.append(dict(b2, which="hess", i=i, j=j, mag=5.0))
                 for j in range(n):
                     for mg in MAGS:
                         out.append(dict(base, which="grad", i=0, j=j, mag=mg))
@@ -118,6 +131,9 @@ def run_case(case):
     ow = sc["ow"] if sc else 0
     T = O.RefTrans(F, vw, cw, ow)
     cfg = {"iteration_limit": 0, "deriv_check": "CheckAll"}
+    PV = {1: {"deriv_tol": 1e-6}, 2: {"deriv_pert": 1e-6, "deriv_tol": 3e-4}}
+    if case.get("pv"):
+        cfg["params"] = PV[case["pv"]]
     params = make_params(cfg, sc)
     eps, atol, rtol = params.deriv_pert, params.deriv_tol, 1e-5
     xi, yi = T.transform_sol(np.array(spec["x0"]), np.array(y0))
@@ -155,12 +171,30 @@ def run_case(case):
             bad("false_positive|" + rec.exc["cls"], f"correct derivatives rejected: {rec.exc['msg']}")
         else:
             # the check must not alter the solve
-            cfg2 = {"iteration_limit": 40, "deriv_check": "CheckAll"}
-            cfg3 = {"iteration_limit": 40}
+            cfg2 = {"iteration_limit": 40, "deriv_check": "CheckAll", "params": dict(cfg.get("params") or {})}
+            cfg3 = {"iteration_limit": 40, "params": dict(cfg.get("params") or {})}
             a = run_solve(UserProblem(spec), make_params(cfg2, sc), spec["x0"], y0)
             b = run_solve(UserProblem(spec), make_params(cfg3, sc), spec["x0"], y0)
             if a.digest != b.digest:
                 bad("check_alters_solve", f"digest with check {a.digest} != without {b.digest}")
+            # time spent in the (expensive) check is not charged to the solve's deadline: virtual clock on which every
+            # callback evaluation takes one second; deadline = 1.25 x the duration of the solve alone
+            from pgfmc.drive.problems import TickingProblem
+            from pgfmc.drive.run import VirtualClock
+            ck0 = VirtualClock()
+            tp0 = TickingProblem(UserProblem(spec), ck0)
+            r0 = run_solve(tp0, make_params(cfg3, sc), spec["x0"], y0, clock=ck0)
+            if r0.result is not None and r0.result.status.name == "Optimal" and tp0.evals >= 8:
+                limit = 1.25 * tp0.evals
+                outs = []
+                for c in (cfg3, cfg2):
+                    ck = VirtualClock()
+                    tp = TickingProblem(UserProblem(spec), ck)
+                    cc = dict(c); cc["params"] = {"time_limit": limit}
+                    outs.append(run_solve(tp, make_params(cc, sc), spec["x0"], y0, clock=ck))
+                if outs[0].digest != outs[1].digest:
+                    bad("check_charged_to_deadline", f"with a deadline of 1.25x the solve's own duration the run with derivative check ended "
+                        f"{outs[1].result.status.name if outs[1].result else outs[1].exc} but the run without check {outs[0].result.status.name if outs[0].result else outs[0].exc}")
         return {"outcome": "correct-accepted" if not viol else "violating", "key": f"{spec['tag']}|{case['si']}|none",
                 "violations": viol, "stats": {"fd": worst}}
 
@@ -192,7 +226,7 @@ def run_case(case):
         if rows_ != [i] or int(e.col_index) != j:
             bad(f"misidentified|{which}", f"reported rows {rows_} col {e.col_index}, expected row [{i}] col {j}")
     return {"outcome": "wrong-detected" if not viol else "violating",
-            "key": f"{spec['tag']}|{case['x0i']}|{case['si']}|{which}|{i}|{j}|{mag}", "violations": viol, "stats": {"fd": worst}}
+            "key": f"{spec['tag']}|{case['x0i']}|{case['si']}|{which}|{i}|{j}|{mag}|{case.get('pv')}", "violations": viol, "stats": {"fd": worst}}
 
 
 def vacuity(cases_, results, tier):
